@@ -229,6 +229,11 @@ def run(ctx):
     ctx.corr["create_family"] = {"comparisons": n_create, "compile_rejections": create_rej,
                                  "tests": "store/aug/loop-store/read around create_from_blueprint x scalar, transient, array element, "
                                           "map element, struct field; constructor staticcalls back (and pokes)"}
+    # plain assignment whose TARGET index / key expression mutates the value being assigned (right-hand side first)
+    from vlib.c08_target import run_family as run_target_family
+    n_target, target_rej = run_target_family(ctx, list(configs(ctx.tier)) if ctx.tier == "quick" else cfgs)
+    n_cmp += n_target
+    ctx.corr["assign_target_family"] = {"comparisons": n_target, "compile_rejections": target_rej}
     ctx.corr["distinct_findings"] = seen_keys
     ctx.corr["aug_assign_value_order_differences_by_config"] = aug_value_diffs
     ctx.corr["evaluations"] = n_cmp
